@@ -506,6 +506,8 @@ def run(ctx):
     # a release that is not checked against the fill level (`consume_all()`: rpos = wpos, used = 0) frees samples the other side
     # committed after the window was taken: C01's refusal rule is a necessary condition of the sharing protocol too
     c01.rule_r1(facts, c19._Retag(ctx, "C01.R1", "C03.R11"))
+    c02.rule_r6(facts, ctx, rule_id="C03.R13")      # the consumer releases only tags of the interval it consumed (never the producer's newer ones)
+    ctx.floor("C03.R13", 2, "tag removal bounded by both ends of the consumed interval (same rule as C02.R6)")
     ctx.floor("C03.R11", 4, "writes of the ring positions / fill level (same rule as C01.R1)")
     ctx.floor("C03.R8", 2, "consume and produce bodies write only their own position")
     ctx.floor("C03.R1", 8, "callers of full_buffer/slice/slice_mut/window constructors + raw slice + 2 &self->&mut accessors")
